@@ -967,7 +967,8 @@ def p20(ctx: Ctx):
         raise IdiomNotFound(f"fewer than two label-filtering passes found ({sorted(filters)})")
 
     def built(e) -> Set[str]:
-        return {c.func.id for c in ast.walk(e) if isinstance(c, ast.Call) and isinstance(c.func, ast.Name) and c.func.id in filters}
+        # (a class named as a value is the constructor chosen now and called later: `cls = A if opt else B; cls(refs)`)
+        return {c.id for c in ast.walk(e) if isinstance(c, ast.Name) and isinstance(c.ctx, ast.Load) and c.id in filters}
 
     n = 0
     for node in ast.walk(conv):
@@ -1210,3 +1211,149 @@ def e23(ctx: Ctx):
             )
     if n < 2:
         raise IdiomNotFound(f"only {n} reads of a field that starts as None found in elements.py")
+
+
+# ---------------------------------------------------------------------------
+# G4b NAME-MAP
+
+
+@rule("G4b", "NAME-MAP: every entry of the function / statement translation tables maps a Color BASIC name to the BASIC09 built-in of the same name, or to the runtime procedure named after it (`VAL` -> `RUN ecb_val`, `INKEY$` -> `RUN inkey`): an entry that names another function translates into a program that loads and computes something else (`SQR` -> `SQ` is the square)", ["C01", "C04", "C14", "C03"], floor=20, default_props=["C01"])
+def g4b(ctx: Ctx):
+    import ast as _ast
+
+    # the tables as the module defines them, however they are built (displays, helper calls, dict unions): folded values
+    env = peg(ctx).env
+    path = ctx.path(GRAMMAR_REL)
+    tree = _ast.parse(path.read_text())
+    linenos = {st.targets[0].id: st.lineno for st in tree.body if isinstance(st, _ast.Assign) and len(st.targets) == 1 and isinstance(st.targets[0], _ast.Name)}
+    n = 0
+    for tname, d in sorted(env.items()):
+        if not (isinstance(d, dict) and d and all(isinstance(k, str) and isinstance(v, str) for k, v in d.items())):
+            continue
+        if not all(re.fullmatch(r"[A-Z][A-Z0-9]*\$?", k) for k in d):
+            continue
+
+        class _K:  # location of the table
+            lineno = linenos.get(tname, 1)
+
+        st = type("S", (), {"targets": [type("T", (), {"id": tname})()]})()
+        for key, val in d.items():
+            k = _K
+            n += 1
+            stem = key.rstrip("$").lower()
+            m = re.fullmatch(r"(?i)run\s+(\w+)", val.strip())
+            if m:
+                ok = m.group(1).lower() in (f"ecb_{stem}", stem)
+                why = f"`{key}` is translated into `{val}`, a procedure that is not named after it (expected `RUN ecb_{stem}`)"
+                props = ["C04", "C14"] if key in ("SET", "RESET", "POINT", "BUTTON", "INKEY$", "JOYSTK") else ["C01", "C03", "C14"]
+            else:
+                ok = val == key
+                why = f"`{key}` is translated into the BASIC09 function `{val}`: a different built-in (the program loads and runs, and computes something else)"
+                props = ["C01", "C03"] if key.endswith("$") or key in ("ASC", "LEN", "VAL") else ["C01"]
+            ctx.ob(f"{st.targets[0].id}[{key}]", ok, "" if ok else why, file=GRAMMAR_REL, line=k.lineno, props=props, witness="" if ok else f"10 A={key}(9)")
+    ctx.need(n >= 20, "translation tables", f"only {n} entries found in the name tables of grammar.py")
+
+
+# ---------------------------------------------------------------------------
+# E24 INIT-CHAIN
+
+
+def _init_fields(init: ast.FunctionDef) -> Set[str]:
+    return {t.attr for a in ast.walk(init) if isinstance(a, (ast.Assign, ast.AnnAssign)) for t in (a.targets if isinstance(a, ast.Assign) else [a.target]) if isinstance(t, ast.Attribute) and isinstance(t.value, ast.Name) and t.value.id == "self"}
+
+
+def _calls_super_init(init: ast.FunctionDef) -> bool:
+    for c in ast.walk(init):
+        if isinstance(c, ast.Call) and isinstance(c.func, ast.Attribute) and c.func.attr == "__init__":
+            v = c.func.value
+            if isinstance(v, ast.Call) and isinstance(v.func, ast.Name) and v.func.id == "super":
+                return True
+            if isinstance(v, ast.Name) and v.id[:1].isupper():
+                return True  # Base.__init__(self, ...)
+    return False
+
+
+@rule("E24", "INIT-CHAIN: a construct class whose base class' constructor sets fields that inherited properties / methods read either calls that constructor or sets those fields itself - otherwise the first pass that asks the object (is_str_expr ...) ends in AttributeError", ["C15", "C07"], floor=20, default_props=["C15"])
+def e24(ctx: Ctx):
+    py = pyfacts(ctx)
+    el = py.mod("coco/b09/elements.py")
+    classes = {c.name: c for c in el.tree.body if isinstance(c, ast.ClassDef)}
+
+    def own_init(c: ast.ClassDef) -> Optional[ast.FunctionDef]:
+        return next((m for m in c.body if isinstance(m, ast.FunctionDef) and m.name == "__init__"), None)
+
+    def bases(c: ast.ClassDef) -> List[ast.ClassDef]:
+        out = []
+        for b in c.bases:
+            if isinstance(b, ast.Name) and b.id in classes:
+                out.append(classes[b.id])
+                out.extend(bases(classes[b.id]))
+        return out
+
+    n = 0
+    for name, c in sorted(classes.items()):
+        init = own_init(c)
+        if init is None:
+            continue
+        anc = bases(c)
+        # nearest ancestor with a constructor of its own that sets fields
+        base = next((b for b in anc if own_init(b) is not None and _init_fields(own_init(b))), None)
+        if base is None:
+            continue
+        n += 1
+        need = _init_fields(own_init(base))
+        # only the fields that code of the ancestors actually reads
+        # (methods the class - or a class between it and the ancestor - overrides no longer run for it)
+        own_names = {m.name for k_ in [c] + [b for b in anc[: anc.index(base)]] for m in k_.body if isinstance(m, ast.FunctionDef)}
+        read = {a.attr for b in [base] + bases(base) for m in b.body if isinstance(m, ast.FunctionDef) and m.name != "__init__" and m.name not in own_names for a in ast.walk(m) if isinstance(a, ast.Attribute) and isinstance(a.ctx, ast.Load) and isinstance(a.value, ast.Name) and a.value.id == "self"}
+        missing = sorted((need & read) - _init_fields(init))
+        ok = _calls_super_init(init) or not missing
+        ctx.ob(
+            name,
+            ok,
+            "" if ok else f"`{name}.__init__` neither calls `{base.name}.__init__` nor sets {missing}, which `{base.name}` sets and its inherited methods read: the first pass that reads them on a `{name}` object (e.g. `.is_str_expr` of `PRINT -A`) raises AttributeError",
+            file="coco/b09/elements.py",
+            line=init.lineno,
+            witness="" if ok else "10 PRINT -A",
+        )
+    ctx.need(n >= 20, "subclass constructors", f"only {n} found in elements.py")
+
+
+# ---------------------------------------------------------------------------
+# E9c LITERAL-EXACT
+
+
+def _lossy_number_formats(fn: ast.AST):
+    """Places where a number held in a field is turned into text with a precision-limiting format."""
+    for n in ast.walk(fn):
+        if isinstance(n, ast.FormattedValue) and n.format_spec is not None:
+            spec = "".join(str(c.value) for c in getattr(n.format_spec, "values", []) if isinstance(c, ast.Constant))
+            if re.search(r"[feEgG%]$|^\.?\d", spec) and not re.fullmatch(r"[xXobd]|0?\d*[xXobd]", spec) and any(isinstance(a, ast.Attribute) and isinstance(a.value, ast.Name) and a.value.id == "self" for a in ast.walk(n.value)):
+                yield n, f"format spec `:{spec}`"
+        if isinstance(n, ast.BinOp) and isinstance(n.op, ast.Mod) and isinstance(n.left, ast.Constant) and isinstance(n.left.value, str) and re.search(r"%[-+0-9.]*[feEgG]", n.left.value):
+            yield n, f"`{n.left.value} % ...`"
+        if isinstance(n, ast.Call) and isinstance(n.func, ast.Name) and n.func.id in ("round", "format") and len(n.args) >= 2 and any(isinstance(a, ast.Attribute) and isinstance(a.value, ast.Name) and a.value.id == "self" for a in ast.walk(n.args[0])):
+            yield n, f"`{n.func.id}(...)`"
+
+
+@rule("E9c", "LITERAL-EXACT: a numeric constant of the source is written with Python's shortest round-trip text (`f\"{x}\"` / str / repr), never through a fixed-precision format, round() or %f: `1.5E-7` must not become `0.000000`", ["C01", "C03"], floor=2, default_props=["C01"])
+def e9c(ctx: Ctx):
+    probe = ast.parse("class K:\n    def basic09_text(self, i):\n        return f'{self._literal:f}'\n")
+    twin = ast.parse("class K:\n    def basic09_text(self, i):\n        return f'{self._literal}'\n")
+    ctx.need(list(_lossy_number_formats(probe)) and not list(_lossy_number_formats(twin)), "self-test", "the built-in positive example / its twin are no longer told apart")
+    py = pyfacts(ctx)
+    el = py.mod("coco/b09/elements.py")
+    n = 0
+    for cls in [c for c in el.tree.body if isinstance(c, ast.ClassDef) and "Literal" in c.name]:
+        for m in [x for x in cls.body if isinstance(x, ast.FunctionDef) and x.name in ("basic09_text", "__init__", "literal")]:
+            n += 1
+            bad = list(_lossy_number_formats(m))
+            ctx.ob(
+                f"{cls.name}.{m.name}",
+                not bad,
+                "" if not bad else f"`{cls.name}.{m.name}` writes the number through {bad[0][1]}: digits beyond the fixed precision are lost (1.5E-7 -> 0.000000), the translated program computes with another constant",
+                file="coco/b09/elements.py",
+                line=bad[0][0].lineno if bad else m.lineno,
+                witness="" if not bad else "10 A=1.5E-7",
+            )
+    ctx.need(n >= 2, "literal classes", f"only {n} literal-printing methods found")
